@@ -6,3 +6,4 @@ import MoreExec.Props.C06
 #print axioms MoreExec.Retry.C06_forwards_to_delegate
 #print axioms MoreExec.Throttle.C06_cancelled_queued_never_handed
 #print axioms MoreExec.BoolOp.C14_output_cancel_fans_out
+#print axioms MoreExec.MapFut.C06_map_cancel_forwards_or_refuses
